@@ -75,3 +75,16 @@ func HashStr(s string) uint64 {
 	}
 	return h
 }
+
+// Perm returns a permutation of 0..n-1.
+func (r *RNG) Perm(n int) []int {
+	out := make([]int, n)
+	for i := range out {
+		out[i] = i
+	}
+	for i := n - 1; i > 0; i-- {
+		j := r.Intn(i + 1)
+		out[i], out[j] = out[j], out[i]
+	}
+	return out
+}
